@@ -20,19 +20,20 @@ func jsonNumber(s string) json.Number { return json.Number(s) }
 
 // streamCase is one C03/C09 case: an input, a document mode and K delivery schedules.
 type streamCase struct {
-	Family string
-	Input  []byte
-	Mode   int
-	Scheds []*sim.Schedule
-	Sweep  bool
-	SEN    bool // input is SEN (only SEN front-ends compared)
-	SENTok bool // SEN input stays inside sen.md (tokenizer compared too)
-	Padded bool
-	Used   int           // history of the parser objects (frontends.go: feUsed)
-	Reuse  bool          // the parsers' Reuse option (frontends.go: feReuse)
-	BReset bool          // one Builder per token stream, Reset between documents (frontends.go: feBuilderReset)
-	Fault  *sim.Schedule // fault configuration: a delivery schedule whose reader fails (non-EOF) at an offset
-	feat   map[string]any
+	Family  string
+	Input   []byte
+	Mode    int
+	Scheds  []*sim.Schedule
+	Sweep   bool
+	SEN     bool // input is SEN (only SEN front-ends compared)
+	SENTok  bool // SEN input stays inside sen.md (tokenizer compared too)
+	Padded  bool
+	Used    int           // history of the parser objects (frontends.go: feUsed)
+	Reuse   bool          // the parsers' Reuse option (frontends.go: feReuse)
+	BReset  bool          // one Builder per token stream, Reset between documents (frontends.go: feBuilderReset)
+	Fault   *sim.Schedule // fault configuration: a delivery schedule whose reader fails (non-EOF) at an offset
+	Variant int           // which package-level variants (Must*, *String, *Load ...) are run besides (frontends.go: pkgVariant)
+	feat    map[string]any
 }
 
 func (c *streamCase) render() any {
@@ -236,6 +237,7 @@ func drawStreamCase(t *rapid.T, forC09 bool) *streamCase {
 		c.Scheds = append(c.Scheds, sim.DrawSchedule(t, len(c.Input), interior))
 	}
 	c.Sweep = len(c.Input) >= 2 && len(c.Input) <= 64 && sim.Intn(t, 3, "sweep") == 2
+	c.Variant = sim.Intn(t, 1<<12, "variant")
 	if !forC09 && sim.Intn(t, 5, "readerfault") == 4 {
 		c.Fault = sim.DrawSchedule(t, len(c.Input), interior)
 		c.Fault.FailAt = sim.Intn(t, len(c.Input)+1, "failat")
@@ -555,6 +557,14 @@ func propC03(cx *sim.Ctx) {
 				agree(cx, c, "sen-chunking", tp, note(senTokLoad(in, s, c.Mode)), levelExact)
 			}
 		}
+		if c.SENTok { // (the package-level functions know no token functions: inputs inside sen.md only)
+			agree(cx, c, "sen-variants", b0, note(pkgVariant("sen", c.Variant, in, scheds[0], c.Mode)), levelExact)
+			t1 := note(pkgVariant("sentok", c.Variant>>3, in, scheds[0], c.Mode))
+			agree(cx, c, "sen-variants", t1, note(pkgVariant("sentok", c.Variant>>5, in, scheds[0], c.Mode)), levelExact)
+			if tp != nil && c.Mode != modeSingle {
+				agree(cx, c, "sen-variants", tp, t1, levelExact)
+			}
+		}
 		if c.Fault != nil {
 			faulted(cx, c, b0, note(senParseReader(in, c.Fault, c.Mode)))
 			if tp != nil {
@@ -609,6 +619,17 @@ func propC03(cx *sim.Ctx) {
 		if vp != nil {
 			agree(cx, c, "chunking", vp, note(ojValidateReader(in, s)), levelExact)
 		}
+	}
+	// the package-level variants (pooled instances with whatever past the process has given them)
+	agree(cx, c, "variants", b0, note(pkgVariant("oj", c.Variant, in, scheds[0], c.Mode)), levelExact)
+	{
+		t1 := note(pkgVariant("ojtok", c.Variant>>3, in, scheds[0], c.Mode))
+		agree(cx, c, "variants", t1, note(pkgVariant("ojtok", c.Variant>>5, in, scheds[0], c.Mode)), levelExact)
+		if c.Mode != modeSingle {
+			agree(cx, c, "variants", tp, t1, levelExact)
+		}
+		v1 := note(pkgVariant("ojval", c.Variant>>7, in, scheds[0], c.Mode))
+		agree(cx, c, "variants", v1, note(pkgVariant("ojval", c.Variant>>9, in, scheds[0], c.Mode)), levelExact)
 	}
 	if c.Fault != nil {
 		faulted(cx, c, b0, note(ojParseReader(in, c.Fault, c.Mode)))
